@@ -617,7 +617,7 @@ type opv struct {
 func utf8len(s []rune) int { return len(string(s)) }
 
 func (g *gen) ops(r *node, global bool, s []rune) []opv {
-	n := g.weighted([]int{20, 25, 25, 15, 10, 5}) + 1
+	n := g.weighted([]int{14, 18, 20, 16, 12, 9, 6, 5}) + 1
 	var ops []opv
 	ng := r.ngroups()
 	for k := 0; k < n; k++ {
@@ -627,12 +627,13 @@ func (g *gen) ops(r *node, global bool, s []rune) []opv {
 		}
 		S := jsStr(subj)
 		C := cUnits(subj)
-		ws := []int{30, 18, 14, 8, 6, 9, 8, 7, 3}
+		//           exec test setLI match search split replS replF props new ident select replStr
+		ws := []int{30, 18, 14, 8, 6, 9, 8, 8, 3, 8, 2, 8, 5}
 		if global {
 			ws[2] = 22
 		}
 		if ng >= 8 { // many groups: the $1..$9 statics, $nn, captures spliced into split results
-			ws = []int{10, 30, 6, 6, 2, 16, 22, 10, 1}
+			ws = []int{10, 30, 6, 6, 2, 16, 22, 10, 1, 4, 1, 4, 2}
 		}
 		switch g.weighted(ws) {
 		case 0:
@@ -645,10 +646,7 @@ func (g *gen) ops(r *node, global bool, s []rune) []opv {
 			v := Pick(g.r, []int{0, 1, 1, 2, 2, 3, L - 1, L, L, L + 1, utf8len(s), utf8len(s) + 1, -1, g.r.Intn(L + 2)})
 			ops = append(ops, opv{fmt.Sprintf("r.lastIndex=%d; li();", v), "(OSetLI " + Cz(int64(v)) + ")"})
 		case 3:
-			js := fmt.Sprintf("var m=%s.match(r); pa(m);", S)
-			if !global {
-				js += " if(m){out.push(m.index,m.input);}"
-			}
+			js := fmt.Sprintf("var m=%s.match(r); pa(m); if(m&&!r.global){out.push(m.index,m.input);}", S)
 			ops = append(ops, opv{js + " li();", "(OMatch " + C + ")"})
 		case 4:
 			ops = append(ops, opv{fmt.Sprintf("out.push(%s.search(r)); li();", S), "(OSearch " + C + ")"})
@@ -679,11 +677,80 @@ func (g *gen) ops(r *node, global bool, s []rune) []opv {
 			ops = append(ops, opv{fmt.Sprintf("out.push(%s.replace(r,%s)); li();", S, jsStr(rp)), fmt.Sprintf("(OReplS %s %s)", C, cUnits(rp))})
 		case 8:
 			ops = append(ops, opv{"out.push(r.source, r.global, r.ignoreCase, r.multiline, String(r)); li();", "OProps"})
+		case 9:
+			mode := g.r.Intn(4)
+			ng2, ni2, nm2 := g.r.Intn(2) == 0, g.r.Intn(3) == 0, g.r.Intn(3) == 0
+			var mk string
+			switch mode {
+			case 0:
+				mk = "new RegExp(r)"
+			case 1:
+				mk = "new RegExp(r, undefined)"
+			case 2:
+				mk = fmt.Sprintf("RegExp(r.source, %q)", flagStr(ng2, ni2, nm2))
+			default:
+				mk = fmt.Sprintf("new RegExp(r.source, %q)", flagStr(ng2, ni2, nm2))
+			}
+			ops = append(ops, opv{"var c=" + mk + "; R.push(c); out.push(c===r, c.source, c.global, c.ignoreCase, c.multiline, c.lastIndex, ['source','global','ignoreCase','multiline','lastIndex'].every(function(k){return c.hasOwnProperty(k)})); li();",
+				fmt.Sprintf("(ONew %d %s %s %s)", mode, Cbool(ng2), Cbool(ni2), Cbool(nm2))})
+		case 10:
+			ops = append(ops, opv{"var en='none'; try{new RegExp(r,'g')}catch(e){en=e.name} out.push(RegExp(r)===r, RegExp(r, undefined)===r, en); li();", "OIdent"})
+		case 11:
+			j := g.r.Intn(4)
+			ops = append(ops, opv{fmt.Sprintf("r=R[%d %% R.length]; li();", j), fmt.Sprintf("(OSelect %d%%nat)", j)})
+		case 12:
+			// a string as searchValue: a piece of the subject, something with pattern characters, or ""
+			var pat []rune
+			switch g.r.Intn(4) {
+			case 0:
+				pat = []rune(Pick(g.r, []string{"", "a", ".", "$", "a*", "b", "(a)", "\\"}))
+			default:
+				if len(subj) > 0 {
+					a := g.r.Intn(len(subj))
+					pat = subj[a : a+1+g.r.Intn(Min(2, len(subj)-a))]
+				}
+			}
+			if g.r.Intn(2) == 0 {
+				ret := g.dollarText(0)
+				ops = append(ops, opv{fmt.Sprintf("var lg=[]; out.push(%s.replace(%s,function(){lg.push(arguments.length); for(var i=0;i<arguments.length;i++) lg.push(arguments[i]); return %s+'<'+arguments.length+'>';})); for(var i=0;i<lg.length;i++) out.push(lg[i]); li();", S, jsStr(pat), jsStr(ret)),
+					fmt.Sprintf("(OReplStr %s %s (RFun %s))", C, cUnits(pat), cUnits(ret))})
+			} else {
+				rp := g.dollarText(0)
+				ops = append(ops, opv{fmt.Sprintf("out.push(%s.replace(%s,%s)); li();", S, jsStr(pat), jsStr(rp)),
+					fmt.Sprintf("(OReplStr %s %s (RText %s))", C, cUnits(pat), cUnits(rp))})
+			}
 		default:
-			ops = append(ops, opv{fmt.Sprintf("var lg=[]; out.push(%s.replace(r,function(){lg.push(arguments.length); for(var i=0;i<arguments.length;i++) lg.push(arguments[i]); return '<'+arguments.length+'>';})); for(var i=0;i<lg.length;i++) out.push(lg[i]); li();", S), "(OReplF " + C + ")"})
+			// what a function returns is inserted as it is: make it look like every $-pattern
+			ret := g.dollarText(ng)
+			if g.r.Intn(4) == 0 {
+				ret = nil
+			}
+			ops = append(ops, opv{fmt.Sprintf("var lg=[]; out.push(%s.replace(r,function(){lg.push(arguments.length); for(var i=0;i<arguments.length;i++) lg.push(arguments[i]); return %s+'<'+arguments.length+'>';})); for(var i=0;i<lg.length;i++) out.push(lg[i]); li();", S, jsStr(ret)),
+				fmt.Sprintf("(OReplF %s %s)", C, cUnits(ret))})
 		}
 	}
 	return ops
+}
+
+func Min(a, b int) int {
+	if a < b {
+		return a
+	}
+	return b
+}
+
+// a short text made of $-patterns valid for ng captures ($n only up to ng)
+func (g *gen) dollarText(ng int) []rune {
+	var rp []rune
+	for i := g.r.Intn(3) + 1; i > 0; i-- {
+		pieces := []string{"$&", "$&", "$`", "$'", "$$", "$$", "x", "$", "$a", "$0", "é", "$$1", "[$&]"}
+		for c := 1; c <= ng && c <= 9; c++ {
+			pieces = append(pieces, fmt.Sprintf("$%d", c), fmt.Sprintf("$0%d", c))
+		}
+		rp = append(rp, []rune(Pick(g.r, pieces))...)
+		rp = append(rp, []rune(Pick(g.r, []string{"", "", "|"}))...)
+	}
+	return rp
 }
 
 func ovOf(v otto.Value) string {
@@ -768,7 +835,7 @@ func (g *gen) runSeq(c seqCase, bucket string) {
 	default:
 		fmt.Fprintf(&src, "var r = new RegExp(%s, %q);\n", JSStr(Units(pat)), fl)
 	}
-	src.WriteString("try {\n")
+	src.WriteString("var R = [r];\ntry {\n")
 	coqOps := make([]string, len(c.ops))
 	for k, o := range c.ops {
 		src.WriteString(o.js + "\n")
@@ -961,7 +1028,7 @@ func (g *gen) badCase() {
 
 func runC10(env *Env) {
 	env.Import = "Otto.C10.Corr"
-	env.Rule = "pattern trees of the portable subset (literals, escapes \\xHH \\uHHHH \\cX, classes, \\d\\w\\s\\b, groups, alternation, greedy/lazy quantifiers, anchors, g/i/m) printed in ES5 syntax as literal or constructor argument; subjects over {a,b,A,1,-,e-acute,\\n,...} sampled from the tree or random; histories of 1-6 calls (exec, test, lastIndex assignment at unit/byte boundaries, match, search, split with limit, replace with $-text or a logging function) on one RegExp object; token soup and trees with look-ahead/back-references through parser.TransformRegExp; malformed mutations and flags through the constructor. non-trivial = history longer than one call or pattern with a quantifier, group, class, alternation or escape; every translation/constructor case"
+	env.Rule = "pattern trees of the portable subset (literals, escapes \\xHH \\uHHHH \\cX, classes, \\d\\w\\s\\b, groups, alternation, greedy/lazy quantifiers, anchors, g/i/m) printed in ES5 syntax as literal or constructor argument; subjects over {a,b,A,1,-,e-acute,\\n,...} sampled from the tree or random; histories of 1-6 calls (exec, test, lastIndex assignment at unit/byte boundaries, match, search, split with limit, replace with $-text or a logging function whose result contains $-patterns, replace with a string pattern) over a growing set of RegExp objects (new RegExp(r), new RegExp(r, undefined), RegExp(r.source, flags) made from objects in any state, identity of RegExp(r), own properties and lastIndex of the copy, switching between copy and original); token soup and trees with look-ahead/back-references through parser.TransformRegExp; malformed mutations and flags through the constructor. non-trivial = history longer than one call or pattern with a quantifier, group, class, alternation or escape; every translation/constructor case"
 	g := &gen{env: env, r: env.Rng}
 	g.pinned()
 	for env.Count() < env.N {
